@@ -94,7 +94,7 @@ impl GenCfg {
             defs_in_loop: true,
             setpc_in_relocated: true,
             tests: false,
-            shadow_forward_ref: false,
+            shadow_forward_ref: true,
             constructs_boost: false,
         }
     }
